@@ -17,7 +17,8 @@ package main
 //   append                                    append(x, …) where x has such a root (it writes into spare
 //                                             capacity of a backing array that outlives the run)
 //   pkgvar                                    any mention of a package-level variable (pools, caches,
-//                                             registries — and the error sentinels, which are only read)
+//                                             registries) other than an error value made by errors.New /
+//                                             fmt.Errorf (sentinels: compared, never written)
 //   alloc                                     for initTaskManager / initChannelManager: where every field of
 //                                             the returned manager comes from (fresh / record (shared
 //                                             read-only) / param / pkg), or where the manager itself comes
@@ -117,6 +118,7 @@ type c09Pkg struct {
 	methods      map[string]*c09Func   // "T.m"
 	byName       map[string][]*c09Func // methods by method name
 	pkgVars      map[string]bool
+	sentinels    map[string]bool // package-level error values (errors.New / fmt.Errorf)
 	imports      map[string]bool
 	effects      map[c09Effect]bool
 	analysed     map[string]bool
@@ -183,7 +185,7 @@ func c09Load(repo, rel, prefix string, perRun, boundary map[string]bool) (*c09Pk
 		return nil, err
 	}
 	p := &c09Pkg{prefix: prefix, perRun: perRun, boundary: boundary, funcs: map[string]*c09Func{}, methods: map[string]*c09Func{}, byName: map[string][]*c09Func{},
-		pkgVars: map[string]bool{}, imports: map[string]bool{}, effects: map[c09Effect]bool{}, analysed: map[string]bool{}, notRunTime: map[string]int{}, linkFields: map[string]bool{}, paramWriters: map[string]bool{}}
+		pkgVars: map[string]bool{}, sentinels: map[string]bool{}, imports: map[string]bool{}, effects: map[c09Effect]bool{}, analysed: map[string]bool{}, notRunTime: map[string]int{}, linkFields: map[string]bool{}, paramWriters: map[string]bool{}}
 	fset := token.NewFileSet()
 	for _, e := range ents {
 		n := e.Name()
@@ -211,9 +213,20 @@ func c09Load(repo, rel, prefix string, perRun, boundary map[string]bool) (*c09Pk
 					continue
 				}
 				for _, sp := range x.Specs {
-					for _, nm := range sp.(*ast.ValueSpec).Names {
+					vs := sp.(*ast.ValueSpec)
+					for i, nm := range vs.Names {
 						if nm.Name != "_" {
 							p.pkgVars[nm.Name] = true
+							// an error value made by errors.New / fmt.Errorf: compared with errors.Is, never written
+							// (a store through it would still be reported, as a store into a package-level variable)
+							if i < len(vs.Values) {
+								if call, ok := vs.Values[i].(*ast.CallExpr); ok {
+									switch types.ExprString(call.Fun) {
+									case "errors.New", "fmt.Errorf":
+										p.sentinels[nm.Name] = true
+									}
+								}
+							}
 						}
 					}
 				}
@@ -274,7 +287,9 @@ func (s *c09Scope) classOf(e ast.Expr) (c09Class, string) {
 			return v.class, v.origin
 		}
 		if s.p.pkgVars[x.Name] {
-			s.effect("pkgvar", c09Global, x.Name)
+			if !s.p.sentinels[x.Name] {
+				s.effect("pkgvar", c09Global, x.Name)
+			}
 			return c09Global, "pkg." + x.Name
 		}
 		if fn := s.p.funcs[x.Name]; fn != nil { // a function used as a value runs sooner or later
@@ -550,8 +565,8 @@ func (s *c09Scope) store(kind string, lhs ast.Expr) {
 // x.f = e where x is a per-run (or local) object and e refers to shared data: a new link
 func (s *c09Scope) linkStore(lhs ast.Expr, c c09Class, o string) {
 	sel, ok := lhs.(*ast.SelectorExpr)
-	if !ok || c < c09Captured {
-		return
+	if !ok || c < c09Param {
+		return // (a parameter of slice / map / pointer type counts: the caller's input adopted by a per-run object)
 	}
 	xc, _ := s.classOf(sel.X)
 	if xc > c09Run {
